@@ -1,18 +1,574 @@
-//! C01 — not built yet.
+//! C01 — local zone and hosts data always win over cache and upstream.
+//!
+//! E-NET: configurations built from a menu of local zones (nested
+//! authoritative apexes, a less specific authoritative zone, non-authoritative
+//! root-zone overrides / hosts / blocklist entries), every subset (<= 3) of a
+//! menu of *conflicting* cache entries, an upstream universe that holds yet
+//! other data for the same names, every question of the menu x 6 types, in
+//! local-only, recursive and forwarding mode.
+
+use crate::c07::base_spec;
 use crate::common::*;
-use serde_json::Value;
+use crate::net::*;
+use crate::procpar::{self, JsonAcc};
+use crate::refzone::{FlatRec, FlatZone, RefResult};
+use crate::ugen::*;
+use crate::util::*;
+use dns_resolver::util::types::ResolvedRecord;
+use dns_types::protocol::types::*;
+use dns_types::zones::types::{Zones, SOA};
+use serde_json::{json, Value};
+use std::collections::BTreeSet;
+use std::net::{IpAddr, Ipv4Addr, SocketAddr};
+use std::sync::Arc;
 
-pub fn run(_ctx: &Ctx) -> i32 {
-    eprintln!("C01: check not built");
-    2
+fn soa_of(apex: &DomainName, minimum: u32) -> SOA {
+    SOA {
+        mname: prepend(b"mname", apex),
+        rname: prepend(b"hostmaster", apex),
+        serial: 1,
+        refresh: 2,
+        retry: 3,
+        expire: 4,
+        minimum,
+    }
 }
 
-pub fn replay(_ctx: &Ctx, _v: &Value) -> i32 {
-    eprintln!("C01: check not built");
-    2
+fn rec(owner: &str, data: RecordTypeWithData, ttl: u32) -> FlatRec {
+    FlatRec {
+        owner: dn(owner),
+        wildcard: false,
+        data,
+        ttl,
+    }
 }
 
-/// Entry point for `vcheck worker C01 <args...>` (child-process mode).
-pub fn worker(_args: &[String]) -> i32 {
-    2
+fn wrec(owner: &str, data: RecordTypeWithData, ttl: u32) -> FlatRec {
+    FlatRec {
+        owner: dn(owner),
+        wildcard: true,
+        data,
+        ttl,
+    }
+}
+
+/// The local zones of configuration `cfg` (bit 0: nested zone sub.a.ex.,
+/// bit 1: less specific authoritative zone ex., bit 2: extra non-authoritative data).
+fn local_zones(cfg: usize, hints: &FlatZone) -> Vec<FlatZone> {
+    let mut v = Vec::new();
+    let a_apex = dn("a.ex.");
+    v.push(FlatZone {
+        apex: a_apex.clone(),
+        soa: Some(soa_of(&a_apex, 60)),
+        recs: vec![
+            rec("a.ex.", ns(&dn("ns1.a.ex.")), 300),
+            rec("ns1.a.ex.", a([10, 2, 0, 53]), 300),
+            rec("www.a.ex.", a([10, 2, 0, 1]), 300),
+            rec("www.a.ex.", a([10, 2, 0, 2]), 300),
+            rec("www.a.ex.", txt(b"local"), 300),
+            rec("alias.a.ex.", cname(&dn("www.a.ex.")), 300),
+            rec("alias2.a.ex.", cname(&dn("www.sub.a.ex.")), 300),
+            rec("alias3.a.ex.", cname(&dn("up.ex.")), 300),
+            rec("alias4.a.ex.", cname(&dn("host.override.")), 300),
+            rec("deleg.a.ex.", ns(&dn("ns1.elsewhere.")), 300),
+            wrec("wild.a.ex.", a([10, 2, 0, 9]), 300),
+            rec("x.ent.a.ex.", a([10, 2, 0, 7]), 300),
+        ],
+    });
+    if cfg & 1 != 0 {
+        let s_apex = dn("sub.a.ex.");
+        v.push(FlatZone {
+            apex: s_apex.clone(),
+            soa: Some(soa_of(&s_apex, 30)),
+            recs: vec![rec("www.sub.a.ex.", a([10, 2, 1, 1]), 300)],
+        });
+    }
+    if cfg & 2 != 0 {
+        let e_apex = dn("ex.");
+        v.push(FlatZone {
+            apex: e_apex.clone(),
+            soa: Some(soa_of(&e_apex, 10)),
+            recs: vec![
+                // data for names owned by the more specific zone: must never be used
+                rec("www.a.ex.", a([10, 9, 9, 9]), 300),
+                rec("nope.a.ex.", a([10, 9, 9, 8]), 300),
+                rec("www.sub.a.ex.", a([10, 9, 9, 7]), 300),
+                rec("up.ex.", a([10, 9, 0, 1]), 300),
+            ],
+        });
+    }
+    let mut root = hints.clone();
+    if cfg & 4 != 0 {
+        root.recs.extend(vec![
+            rec("host.override.", a([10, 3, 0, 1]), 5),
+            rec("host.override.", a([10, 3, 0, 2]), 5),
+            rec("ads.example.", a([0, 0, 0, 0]), 5),
+            rec("ads.example.", aaaa(0), 5),
+            wrec("wildna.", a([10, 3, 0, 9]), 5),
+            // data for names owned by the authoritative zones: must never be used
+            rec("www.a.ex.", a([10, 8, 8, 8]), 5),
+            rec("nope.a.ex.", a([10, 8, 8, 7]), 5),
+        ]);
+    }
+    v.push(root);
+    v
+}
+
+fn cache_menu() -> Vec<ResourceRecord> {
+    vec![
+        rr(&dn("www.a.ex."), a([6, 6, 6, 1]), 300),
+        rr(&dn("www.a.ex."), cname(&dn("evil.k.")), 300),
+        rr(&dn("nope.a.ex."), a([6, 6, 6, 2]), 300),
+        rr(&dn("below.deleg.a.ex."), a([6, 6, 6, 3]), 300),
+        rr(&dn("host.override."), a([6, 6, 6, 4]), 300),
+        rr(&dn("host.override."), aaaa(6), 300),
+        rr(&dn("up.ex."), a([6, 6, 6, 5]), 300),
+        rr(&dn("www.a.ex."), txt(b"cached"), 300),
+        rr(&dn("ads.example."), a([6, 6, 6, 6]), 300),
+        rr(&dn("www.sub.a.ex."), a([6, 6, 6, 7]), 300),
+    ]
+}
+
+fn question_names() -> Vec<DomainName> {
+    [
+        "www.a.ex.", "alias.a.ex.", "alias2.a.ex.", "alias3.a.ex.", "alias4.a.ex.", "nope.a.ex.", "ent.a.ex.",
+        "q.wild.a.ex.", "below.deleg.a.ex.", "deleg.a.ex.", "a.ex.", "www.sub.a.ex.", "nope.sub.a.ex.",
+        "host.override.", "ads.example.", "other.override.", "x.wildna.", "up.ex.", "nope.ex.",
+    ]
+    .iter()
+    .map(|s| dn(s))
+    .collect()
+}
+
+const QTYPES: [QueryType; 6] = [
+    QueryType::Record(RecordType::A),
+    QueryType::Record(RecordType::AAAA),
+    QueryType::Record(RecordType::TXT),
+    QueryType::Record(RecordType::CNAME),
+    QueryType::Record(RecordType::NS),
+    QueryType::Wildcard,
+];
+
+/// An upstream world that answers the same names with other data.
+fn upstream() -> Arc<Universe> {
+    let p = GenParams::simple(1, NsStyle::InZoneGlue, 1);
+    let mut u = build(&p);
+    let addr = Ipv4Addr::new(10, 0, 8, 1);
+    // (the nameserver of wildna. is named outside the locally overridden
+    // wildcard *.wildna., which would otherwise hijack its address)
+    let ns_name = |apex_n: &DomainName| {
+        if *apex_n == dn("wildna.") {
+            dn("nswild.example.")
+        } else {
+            prepend(b"ns1", apex_n)
+        }
+    };
+    let mk = |apex: &str, recs: Vec<FlatRec>| {
+        let apex_n = dn(apex);
+        let nsn = ns_name(&apex_n);
+        let mut all = vec![
+            FlatRec { owner: apex_n.clone(), wildcard: false, data: ns(&nsn), ttl: 300 },
+            FlatRec { owner: nsn.clone(), wildcard: false, data: RecordTypeWithData::A { address: addr }, ttl: 300 },
+        ];
+        all.extend(recs);
+        FlatZone { apex: apex_n.clone(), soa: Some(soa_of(&apex_n, 60)), recs: all }
+    };
+    let zones = vec![
+        mk("ex.", vec![
+            rec("www.a.ex.", a([7, 7, 7, 1]), 300),
+            rec("www.a.ex.", txt(b"upstream"), 300),
+            rec("nope.a.ex.", a([7, 7, 7, 2]), 300),
+            rec("ent.a.ex.", a([7, 7, 7, 3]), 300),
+            rec("www.sub.a.ex.", a([7, 7, 7, 4]), 300),
+            rec("nope.sub.a.ex.", a([7, 7, 7, 5]), 300),
+            rec("up.ex.", a([7, 7, 7, 6]), 300),
+            rec("a.ex.", a([7, 7, 7, 7]), 300),
+            rec("alias.a.ex.", a([7, 7, 7, 8]), 300),
+        ]),
+        mk("override.", vec![
+            rec("host.override.", a([7, 7, 8, 1]), 300),
+            rec("host.override.", aaaa(0x78), 300),
+            rec("host.override.", txt(b"upstream"), 300),
+            rec("other.override.", a([7, 7, 8, 2]), 300),
+        ]),
+        mk("example.", vec![rec("ads.example.", a([7, 7, 9, 1]), 300), rec("ads.example.", txt(b"ads"), 300)]),
+        mk("wildna.", vec![rec("x.wildna.", a([7, 7, 9, 2]), 300)]),
+    ];
+    for z in zones {
+        let apex = z.apex.clone();
+        let nsn = ns_name(&apex);
+        u.zones[0].recs.push(FlatRec { owner: apex.clone(), wildcard: false, data: ns(&nsn), ttl: 300 });
+        u.zones[0].recs.push(FlatRec { owner: nsn, wildcard: false, data: RecordTypeWithData::A { address: addr }, ttl: 300 });
+        let idx = u.zones.len();
+        u.zones.push(z);
+        u.serving.entry(IpAddr::V4(addr)).or_default().push(idx);
+    }
+    u.description = "upstream world with other data for the locally configured names".into();
+    Arc::new(u)
+}
+
+fn hints_flat(u: &Universe) -> FlatZone {
+    let mut recs = Vec::new();
+    for (n, addrs) in &u.hints {
+        recs.push(FlatRec { owner: DomainName::root_domain(), wildcard: false, data: ns(n), ttl: 3_600_000 });
+        for a in addrs {
+            recs.push(FlatRec {
+                owner: n.clone(),
+                wildcard: false,
+                data: match a {
+                    IpAddr::V4(v) => RecordTypeWithData::A { address: *v },
+                    IpAddr::V6(v) => RecordTypeWithData::AAAA { address: *v },
+                },
+                ttl: 3_600_000,
+            });
+        }
+    }
+    FlatZone { apex: DomainName::root_domain(), soa: None, recs }
+}
+
+#[derive(Debug, Copy, Clone, Eq, PartialEq)]
+enum ModeK {
+    Local,
+    Recursive,
+    Forwarding,
+}
+
+fn most_specific<'a>(zones: &'a [FlatZone], name: &DomainName) -> Option<&'a FlatZone> {
+    zones
+        .iter()
+        .filter(|z| name.is_subdomain_of(&z.apex))
+        .max_by_key(|z| z.apex.labels.len())
+}
+
+/// Is `name` at or beneath a non-apex delegation point of `z`?
+fn under_cut(z: &FlatZone, name: &DomainName) -> bool {
+    z.recs.iter().any(|r| {
+        !r.wildcard
+            && r.data.rtype() == RecordType::NS
+            && r.owner != z.apex
+            && name.is_subdomain_of(&r.owner)
+    })
+}
+
+fn key(r: &ResourceRecord) -> (DomainName, RecordTypeWithData, u32) {
+    (r.name.clone(), r.rtype_with_data.clone(), r.ttl)
+}
+
+fn judge(zones: &[FlatZone], q: &Question, res: &RunResult) -> Vec<(&'static str, String)> {
+    let mut out = Vec::new();
+    let ask = &res.asks[0];
+    let z = match most_specific(zones, &q.name) {
+        Some(z) => z,
+        None => return out,
+    };
+    let outcome = &ask.outcome;
+    if let Outcome::Panic(m) = outcome {
+        out.push(("panic", format!("panicked: {m}")));
+        return out;
+    }
+    let soa_rr = z.soa.as_ref().map(|s| s.to_rr(&z.apex));
+    let excepted = under_cut(z, &q.name);
+    // (c) a name error only on the word of an authoritative local zone
+    if let Outcome::Ok(ResolvedRecord::AuthoritativeNameError { soa_rr: got }) = outcome {
+        let ok = z.soa.is_some() && !excepted && matches!(z.resolve(&q.name, q.qtype), Some(RefResult::NameError));
+        if !ok {
+            out.push(("name-error-without-authority", format!("name error (SOA {}) although the most specific zone {} does not say so", show_rr(got), show_name(&z.apex))));
+        } else if Some(got) != soa_rr.as_ref() {
+            out.push(("wrong-soa", format!("name error carries {} instead of the zone's SOA", show_rr(got))));
+        }
+    }
+    if z.soa.is_some() && !excepted {
+        // (a) everything comes from this zone alone
+        let want = z.resolve(&q.name, q.qtype).expect("under apex");
+        let soa_rr = soa_rr.clone().unwrap();
+        match &want {
+            RefResult::Answer(rrs) => {
+                match outcome {
+                    Outcome::Ok(ResolvedRecord::Authoritative { rrs: got, soa_rr: gs }) => {
+                        let mut g: Vec<_> = got.iter().map(key).collect();
+                        let mut w: Vec<_> = rrs.iter().map(key).collect();
+                        g.sort();
+                        w.sort();
+                        if g != w {
+                            out.push(("authoritative-answer-differs", format!("zone {} holds {} but the answer is {}", show_name(&z.apex), show_rrs(rrs), show_rrs(got))));
+                        }
+                        if *gs != soa_rr {
+                            out.push(("wrong-soa", format!("answer carries {} instead of {}", show_rr(gs), show_rr(&soa_rr))));
+                        }
+                    }
+                    other => out.push(("not-authoritative", format!("zone {} answers this question ({}), got {}", show_name(&z.apex), show_rrs(rrs), show_outcome(other)))),
+                }
+                if !res.log.is_empty() {
+                    out.push(("upstream-contacted", format!("upstream was contacted for a question the authoritative zone answers: {}", show_log(&res.log))));
+                }
+            }
+            RefResult::NameError => {
+                if !matches!(outcome, Outcome::Ok(ResolvedRecord::AuthoritativeNameError { .. })) {
+                    out.push(("missing-name-error", format!("zone {} does not define the name, got {}", show_name(&z.apex), show_outcome(outcome))));
+                }
+                if !res.log.is_empty() {
+                    out.push(("upstream-contacted", format!("upstream was contacted for a name the authoritative zone denies: {}", show_log(&res.log))));
+                }
+            }
+            RefResult::Cname(c) => {
+                // D3: only the first record and clause (d) are judged
+                let rrs = outcome_rrs(outcome);
+                if rrs.first().map(key) != Some(key(c)) {
+                    out.push(("zone-cname-not-first", format!("the answer must start with the zone's {} but is {}", show_rr(c), show_outcome(outcome))));
+                }
+            }
+            RefResult::Delegation(_) => {}
+        }
+    } else if z.soa.is_none() {
+        // (b) non-authoritative zone / hosts data
+        let all = z.all();
+        let held: Vec<ResourceRecord> = match z.resolve_with(&all, &q.name, QueryType::Wildcard) {
+            Some(RefResult::Answer(rrs)) => rrs,
+            _ => Vec::new(),
+        };
+        let rrs = outcome_rrs(outcome);
+        let types: BTreeSet<RecordType> = held.iter().map(|r| r.rtype_with_data.rtype()).collect();
+        for t in types {
+            if !t.matches(q.qtype) {
+                continue;
+            }
+            let mut w: Vec<_> = held.iter().filter(|r| r.rtype_with_data.rtype() == t).map(key).collect();
+            let mut g: Vec<_> = rrs
+                .iter()
+                .filter(|r| r.name == q.name && r.rtype_with_data.rtype() == t)
+                .map(key)
+                .collect();
+            w.sort();
+            g.sort();
+            if q.qtype == QueryType::Wildcard && !matches!(outcome, Outcome::Ok(_)) {
+                // ANY needs the other types from cache/upstream: an error
+                // when those cannot be had is not judged
+                continue;
+            }
+            if g != w {
+                out.push(("override-not-exact", format!("local data holds {} {} records {:?} but the answer has {:?}", show_name(&q.name), t, w.iter().map(|k| show_data(&k.1)).collect::<Vec<_>>(), g.iter().map(|k| show_data(&k.1)).collect::<Vec<_>>())));
+            }
+            if q.qtype != QueryType::Wildcard {
+                if rrs.len() != g.len() {
+                    out.push(("override-not-exact", format!("answer {} has records besides the local {} records", show_rrs(&rrs), t)));
+                }
+                if !res.log.is_empty() {
+                    out.push(("upstream-contacted", format!("upstream was contacted for a question local data answers: {}", show_log(&res.log))));
+                }
+            }
+        }
+    }
+    // (d) nothing about names an authoritative zone owns that the zone does not hold
+    for r in outcome_rrs(outcome) {
+        if let Some(oz) = most_specific(zones, &r.name) {
+            if oz.soa.is_some() && !under_cut(oz, &r.name) {
+                let all = oz.all();
+                let present = match oz.resolve_with(&all, &r.name, QueryType::Wildcard) {
+                    Some(RefResult::Answer(rrs)) => rrs.iter().any(|x| x.rtype_with_data == r.rtype_with_data),
+                    Some(RefResult::Cname(c)) => c.rtype_with_data == r.rtype_with_data,
+                    _ => false,
+                } || (r.rtype_with_data.rtype() == RecordType::CNAME
+                    && matches!(oz.resolve_with(&all, &r.name, QueryType::Record(RecordType::A)), Some(RefResult::Cname(c)) if c.rtype_with_data == r.rtype_with_data));
+                if !present {
+                    out.push(("foreign-data-for-owned-name", format!("the answer contains {} but the authoritative zone {} that owns the name does not hold it", show_rr(&r), show_name(&oz.apex))));
+                }
+            }
+        }
+    }
+    out
+}
+
+fn case_json(cfg: usize, cache: &[usize], q: &Question, mode: ModeK, choices: &[usize]) -> Value {
+    json!({
+        "kind": "local-priority",
+        "config": cfg,
+        "cache": cache,
+        "question": {"name": q.name.to_dotted_string(), "qtype": u16::from(q.qtype)},
+        "mode": format!("{mode:?}"),
+        "choices": choices,
+    })
+}
+
+fn fwd_addr() -> SocketAddr {
+    SocketAddr::new(IpAddr::V4(Ipv4Addr::new(10, 9, 9, 9)), 53)
+}
+
+fn make_spec(u: &Arc<Universe>, zones: &[FlatZone], cache: &[usize], q: &Question, mode: ModeK) -> RunSpec {
+    let menu = cache_menu();
+    let mut real = Zones::new();
+    for z in zones {
+        real.insert(z.build());
+    }
+    let seed: Vec<ResourceRecord> = cache.iter().map(|i| menu[*i].clone()).collect();
+    let mut spec = base_spec(u.clone(), vec![Step::Seed(seed), Step::Ask(q.clone())]);
+    spec.zones = real;
+    spec.mode = match mode {
+        ModeK::Local => Mode::Local,
+        ModeK::Recursive => Mode::Recursive,
+        ModeK::Forwarding => Mode::Forwarding(fwd_addr()),
+    };
+    spec
+}
+
+fn cache_subsets(k: usize) -> Vec<Vec<usize>> {
+    let n = cache_menu().len();
+    let mut out = vec![vec![]];
+    fn rec(start: usize, n: usize, left: usize, cur: &mut Vec<usize>, out: &mut Vec<Vec<usize>>) {
+        if left == 0 {
+            return;
+        }
+        for i in start..n {
+            cur.push(i);
+            out.push(cur.clone());
+            rec(i + 1, n, left - 1, cur, out);
+            cur.pop();
+        }
+    }
+    rec(0, n, k, &mut Vec::new(), &mut out);
+    out
+}
+
+fn run_item(tier: Tier, i: usize, acc: &mut JsonAcc) {
+    // item = (config, question name)
+    let names = question_names();
+    let cfg = i / names.len();
+    let name = &names[i % names.len()];
+    let u = upstream();
+    let hints = hints_flat(&u);
+    let zones = local_zones(cfg, &hints);
+    let subsets = cache_subsets(tier.pick(2, 3));
+    for qtype in QTYPES {
+        let q = question(name, qtype);
+        for cache in &subsets {
+            for mode in [ModeK::Local, ModeK::Recursive, ModeK::Forwarding] {
+                let spec = make_spec(&u, &zones, cache, &q, mode);
+                let mut stats = ExploreStats::default();
+                if acc.trace {
+                    let (c2, q2) = (cache.clone(), q.clone());
+                    stats.pre = Some(Box::new(move |prefix: &[usize]| {
+                        println!("EXEC {}", case_json(cfg, &c2, &q2, mode, prefix));
+                        use std::io::Write;
+                        let _ = std::io::stdout().flush();
+                    }));
+                }
+                let mut visit = |res: &RunResult, choices: &[usize]| {
+                    let findings = judge(&zones, &q, res);
+                    let z = most_specific(&zones, &q.name);
+                    let class = match z {
+                        Some(z) if z.soa.is_some() => {
+                            if under_cut(z, &q.name) {
+                                "beneath a delegation of an authoritative zone".to_string()
+                            } else {
+                                format!("authoritative zone: {}", match z.resolve(&q.name, q.qtype) {
+                                    Some(RefResult::Answer(r)) if r.is_empty() => "empty answer",
+                                    Some(RefResult::Answer(_)) => "answer",
+                                    Some(RefResult::NameError) => "name error",
+                                    Some(RefResult::Cname(_)) => "alias",
+                                    _ => "other",
+                                })
+                            }
+                        }
+                        Some(_) => "non-authoritative zone".to_string(),
+                        None => "no zone".to_string(),
+                    };
+                    acc.hist(&format!("{mode:?}: {class}"), 1);
+                    if !cache.is_empty() {
+                        acc.count("nontrivial", 1);
+                    }
+                    acc.states.insert(fnv64(format!("{cfg}|{}|{}|{:?}|{}", q.name, q.qtype, mode, show_outcome(&res.asks[0].outcome)).as_bytes()));
+                    for (clause, msg) in findings {
+                        acc.violate(
+                            clause,
+                            format!(
+                                "config {cfg} cache {:?} question {} {} mode {mode:?}: {msg} :: outcome {}",
+                                cache.iter().map(|i| show_rr(&cache_menu()[*i])).collect::<Vec<_>>(),
+                                show_name(&q.name),
+                                q.qtype,
+                                show_outcome(&res.asks[0].outcome)
+                            ),
+                            case_json(cfg, cache, &q, mode, choices),
+                            None,
+                        );
+                    }
+                    if cache.len() == 2 && mode == ModeK::Recursive && !res.log.is_empty() {
+                        acc.sample(json!({
+                            "config": cfg,
+                            "cache": cache.iter().map(|i| show_rr(&cache_menu()[*i])).collect::<Vec<_>>(),
+                            "question": format!("{} {}", show_name(&q.name), q.qtype),
+                            "outcome": show_outcome(&res.asks[0].outcome),
+                            "exchanges": show_log(&res.log),
+                        }));
+                    }
+                };
+                explore(&spec, 0, 64, &mut stats, &mut visit);
+                acc.count("executions", stats.executions);
+                acc.count("exchanges", stats.exchanges + stats.choice_points);
+            }
+        }
+    }
+}
+
+const N_CONFIGS: usize = 8;
+
+pub fn run(ctx: &Ctx) -> i32 {
+    let n = N_CONFIGS * question_names().len();
+    let (acc, crashes) = procpar::parent(ctx, n, ctx.tier.pick(40.0, 570.0), &[]);
+    let mut report = Report::new();
+    let c = |k: &str| acc.counters.get(k).copied().unwrap_or(0);
+    report.evaluations = c("executions");
+    report.transitions = c("exchanges") + c("executions");
+    report.traces_validated = report.evaluations;
+    report.distinct_nontrivial = c("nontrivial");
+    procpar::into_report(acc, crashes, &mut report);
+    report.rule = "8 configurations (authoritative zone a.ex. with records, aliases into four kinds of target, a delegation, a wildcard, an empty non-terminal, apex NS; optionally the nested zone sub.a.ex., the less specific authoritative zone ex. holding data for names of a.ex., and non-authoritative root-zone overrides / hosts / blocklist / wildcard entries incl. data for names of a.ex.) x every subset of <= k of 10 conflicting cache entries x 19 question names x 6 types x 3 modes x candidate orders, against an upstream world with yet other data for the same names; non-trivial = executions with a non-empty (conflicting) cache".into();
+    report.bounds = json!({"configs": N_CONFIGS, "cache_subset_max": ctx.tier.pick(2, 3), "question_names": question_names().len(), "qtypes": 6, "modes": 3});
+    report.assumptions = vec![
+        "D3: when an alias held by an authoritative zone leads out of authoritative data only the first record and clause (d) are judged".into(),
+        "D6: for ANY the override clause is read per (name, type)".into(),
+        "names at or beneath a delegation point of the most specific authoritative zone are excepted".into(),
+    ];
+    finish(ctx, report)
+}
+
+fn replay_inner(ctx: &Ctx, v: &Value) -> i32 {
+    let cfg = v["config"].as_u64().unwrap_or(0) as usize;
+    let cache: Vec<usize> = v["cache"].as_array().cloned().unwrap_or_default().iter().filter_map(|c| c.as_u64().map(|c| c as usize)).collect();
+    let q = question(&dn(v["question"]["name"].as_str().unwrap_or(".")), QueryType::from(v["question"]["qtype"].as_u64().unwrap_or(1) as u16));
+    let mode = match v["mode"].as_str().unwrap_or("Local") {
+        "Recursive" => ModeK::Recursive,
+        "Forwarding" => ModeK::Forwarding,
+        _ => ModeK::Local,
+    };
+    let choices: Vec<usize> = v["choices"].as_array().cloned().unwrap_or_default().iter().filter_map(|c| c.as_u64().map(|c| c as usize)).collect();
+    let u = upstream();
+    let zones = local_zones(cfg, &hints_flat(&u));
+    let spec = make_spec(&u, &zones, &cache, &q, mode);
+    let res = run_once(&spec, &choices);
+    println!("config {cfg}; cache {:?}", cache.iter().map(|i| show_rr(&cache_menu()[*i])).collect::<Vec<_>>());
+    println!("question {} {} mode {mode:?}", show_name(&q.name), q.qtype);
+    println!("exchanges: {}", show_log(&res.log));
+    println!("outcome: {}", show_outcome(&res.asks[0].outcome));
+    let findings = judge(&zones, &q, &res);
+    for (c, m) in &findings {
+        println!("  finding [{c}]: {m}");
+    }
+    if findings.is_empty() {
+        println!("replay: property holds on this case");
+        0
+    } else {
+        println!("VIOLATION property={} replay=(replayed case)", ctx.id);
+        1
+    }
+}
+
+pub fn replay(ctx: &Ctx, v: &Value) -> i32 {
+    procpar::replay_in_child(ctx, v)
+}
+
+pub fn worker(args: &[String]) -> i32 {
+    if let Some(v) = procpar::replay_arg(args) {
+        let ctx = Ctx { id: "C01", tier: Tier::Quick, seed: 0, start: std::time::Instant::now(), threads: 1 };
+        return replay_inner(&ctx, &v);
+    }
+    procpar::child_main(args, move |tier, i, acc| run_item(tier, i, acc))
 }
